@@ -597,7 +597,12 @@ class World(StackWorld):
         ser = cfg["ser"] = ch.pick(SER_NAMES, "ser")
         is_server = cfg["server"] = ch.flag("server")
         what = cfg["what"] = ch.pick(("flip-type", "garbage", "truncated", "out-of-phase", "session-raises-onMessage",
-                                      "session-raises-onOpen", "not-a-list", "unknown-type"), "what")
+                                      "session-raises-onOpen", "not-a-list", "unknown-type", "ws-no-subprotocol"), "what")
+        if what == "ws-no-subprotocol":
+            # a WebSocket server that completes the upgrade without selecting any subprotocol (a plain WebSocket server
+            # behind the URL): no serializer was agreed on, the client must not attach a session
+            kind = cfg["kind"] = "ws"
+            is_server = cfg["server"] = False
         sess = self.new_session("E")
         # (the text of the session's exception ends up in the close reason: it may be long, and it may be long only when
         # counted in octets - 100 Cyrillic or CJK characters are 200 or 300 octets)
@@ -623,11 +628,19 @@ class World(StackWorld):
             sub = "wamp.2." + ser
             if is_server:
                 self.peer.send(self.client_request_bytes(resource="/ws", extra=b"Sec-WebSocket-Protocol: " + sub.encode() + b"\r\n"))
+            elif what == "ws-no-subprotocol":
+                self.peer.send(self.server_response_bytes(bytes(self.peer.received)))
             else:
                 self.peer.send(self.server_response_bytes(bytes(self.peer.received), extra=b"Sec-WebSocket-Protocol: " + sub.encode() + b"\r\n"))
         else:
             self.peer.send(bytes([0x7F, (15 << 4) | RS_ID[ser], 0, 0]))
         self.pump_all()
+        if what == "ws-no-subprotocol":
+            self.todo = []
+            self.expect_reason = "protocol"
+            self.local_close_first = False
+            self.run.probe("ws-101-without-subprotocol")
+            return
         if what != "session-raises-onOpen" and sess.opens != 1:
             raise SetupViolation("session-not-attached-after-valid-handshake:%s" % kind, ser)
         from autobahn.wamp import message as M
@@ -1008,6 +1021,12 @@ class World(StackWorld):
         sess = self.sessions[0]
         what = cfg["what"]
         kind = cfg["kind"]
+        if what == "ws-no-subprotocol":
+            if sess.opens:
+                run.violate("C13.attach-iff-negotiated", "attached-without-subprotocol:client", "onOpen x%d, onClose x%d" % (sess.opens, sess.closes))
+            if not e.t.is_gone():
+                run.violate("C13.refuse-quietly", "refused-but-transport-open:ws-client", "")
+            return
         # the good message after the corrupted one must not be delivered as if nothing happened
         if what != "session-raises-onOpen":
             delivered_after = [m for m in sess.msgs if m.marshal() == [17, 3, 4]]
